@@ -19,6 +19,7 @@ import io
 import json
 import os
 import struct
+import time
 
 from common import VERIF, coq_list
 
@@ -505,6 +506,10 @@ def direct_value(real, mv, rng, cut_limit=80):
         fails.append('loads(dumps(v)) raised %s' % r[2])
     elif r[1] != mv:
         fails.append('loads(dumps(v)) != v')
+    ru = real.unpack(b)
+    if ru[0] == 'ok' and ru[2] != len(b):
+        fails.append('dumps returned %d bytes but the encoding ends after %d' % (len(b), ru[2]))
+        return fails
     for p in cut_points(len(b), rng, cut_limit):
         try:
             um.loads(b[:p])
@@ -786,15 +791,37 @@ def depth_of(v):
 # ---------------------------------------------------------------------------------------------
 
 class Cases(object):
-    """collects case terms together with what is needed to search / replay a disagreement."""
+    """collects case terms together with what is needed to search / replay a disagreement.
+    Bounded: once the check has enough concrete failures, or the generation phase exceeds its time or
+    volume budget, nothing more is generated (`stopped`); an overrun without any failing input is reported
+    as a violation (no-failing-input-found), never as a silent timeout."""
 
     def __init__(self, ctx):
         self.ctx = ctx
         self.small = []      # (term, info)
-        self.big = []        # (term, info) - one shard each
+        self.big = []        # (term, info) - a few per shard
+        self.volume = 0
+        self.stopped = False
+        self.overrun = None
+        self.max_volume = ctx.pick(40, 300) * 1000 * 1000
+        self.deadline = ctx.t0 + ctx.pick(420, 1100)
+
+    def check_budget(self):
+        if self.stopped:
+            return
+        if self.volume > self.max_volume:
+            self.stopped = True
+            self.overrun = 'case volume %d bytes exceeds the budget of %d' % (self.volume, self.max_volume)
+        elif time.time() > self.deadline:
+            self.stopped = True
+            self.overrun = 'input generation exceeded its time budget (%d s)' % (self.deadline - self.ctx.t0)
 
     def add(self, term, info, big=False):
+        if self.stopped:
+            return
+        self.volume += len(term)
         (self.big if big or len(term) > 60000 else self.small).append((term, info))
+        self.check_budget()
 
 
 def boundary_ints():
@@ -861,6 +888,43 @@ def wide_strings(rng, quick):
     return out
 
 
+def dumps_sequences(rng, um, quick):
+    """sequences of values to be packed one after the other in the same process: a long encoding followed by
+    shorter ones of every kind, alternations, and random sequences of mixed sizes."""
+    longs = [('arr', [('int', i) for i in range(40)]),
+             ('str', b'x' * 300),
+             ('bin', bytes(range(256)) * 4),
+             ('map', [(('int', i), ('str', b'v%d' % i)) for i in range(20)]),
+             ('arr', [('str', '\u0436'.encode('utf-8') * 40)] * 10),
+             ('ext', 7, b'\x01' * 70000),
+             ('arr', [('map', [(('str', b'k'), ('arr', [('f64', f64_bits(1.5)), NIL]))])] * 30)]
+    shorts = [NIL, ('bool', True), ('bool', False), ('int', 0), ('int', -1), ('int', 2 ** 40), ('int', -2 ** 63),
+              ('f64', f64_bits(0.5)), ('str', b''), ('str', b'ab'), ('bin', b''), ('bin', b'\x00'), ('arr', []),
+              ('map', []), ('ext', 1, b''), ('ext', 2, b'ab'), ('arr', [NIL, ('int', 1)]), ('map', [(('int', 1), NIL)])]
+    out = []
+    for l in longs:
+        picks = shorts if not quick else rng.sample(shorts, 6)
+        for sh in picks:
+            out.append([l, sh])
+    out.append([longs[0], NIL, longs[1], ('int', 5), longs[3], ('str', b'a'), NIL])
+    out.append([NIL, longs[0], NIL])
+    out.append([('int', 2 ** 64), longs[0], ('int', 2 ** 64), NIL])          # a refusal between two calls
+    for _ in range(20 if quick else 300):
+        k = rng.randrange(2, 7)
+        seq = [dedupe_keys(rand_value(rng, rng.choice([0, 1, 2, 3, 4])), um) for _ in range(k)]
+        if rng.random() < 0.6:
+            # longest first, then the others in random order
+            try:
+                seq.sort(key=lambda v: -len(um.dumps(to_py(v, um))))
+            except Exception:                                  # noqa - out-of-range ints etc. stay where they are
+                pass
+            tail = seq[1:]
+            rng.shuffle(tail)
+            seq = seq[:1] + tail
+        out.append(seq)
+    return out
+
+
 def length_values(n):
     """one value of each sized kind with length n (constant payloads keep the literals small)."""
     return [('str', ('str', b'a' * n)), ('bin', ('bin', b'\x00' * n)), ('ext', ('ext', 5, b'\x07' * n)),
@@ -876,7 +940,8 @@ def run(ctx):
     cov['rule'] = (
         '(I) model encode/decode/dispatch vs umsgpack.dumps/unpack/loads/_unpack_dispatch_table, compared inside Coq '
         '(vm_compute): every integer within +-3 of +-2^5,2^7,2^8,2^15,2^16,2^31,2^32,2^63,2^64; str/bin/ext/array/map of every '
-        'length within +-2 of 15,16,31,32,255,256,65535,65536; non-ASCII strings (2-, 3-, 4-byte code points and mixtures) with the '
+        'length within +-2 of 15,16,31,32,255,256,65535,65536; SEQUENCES of dumps calls in one process (long then short values of '
+        'every kind, alternations, random mixes): each output byte-for-byte against the model and of exact length; non-ASCII strings (2-, 3-, 4-byte code points and mixtures) with the '
         'character count and the UTF-8 byte count each swept +-2 across 31/32, 255/256, 65535/65536, alone, as map keys and nested; all 256 first bytes with empty/random/valid tails; every cut '
         'point of every encoding up to 80 bytes (sampled above); random nested values to depth 6; random spec-valid streams in '
         'arbitrary legal formats from the Python twin of Enc (well-formed and with colliding/unhashable keys, invalid UTF-8); '
@@ -886,12 +951,35 @@ def run(ctx):
     cases = Cases(ctx)
     direct_fail = []      # (what, replay)
 
+    FAIL_FAST = 25
+    hist = {'longest': None, 'longest_len': -1}      # the value with the longest encoding packed so far
+
     def note_direct(fails, replay):
         for f in fails:
             direct_fail.append((f, replay))
+        if len(direct_fail) >= FAIL_FAST and not cases.stopped:
+            cases.stopped = True
+            ctx.notes.append('stopped generating after %d concrete failures' % len(direct_fail))
+
+    def exact(mv, out, history):
+        """dumps(mv) returned `out`: nothing may follow the encoding (unpack must consume all of it).
+        Returns True when exact; otherwise records the failure with the sequence of dumps calls that shows it."""
+        r = real.unpack(out)
+        if r[0] == 'ok' and r[2] != len(out):
+            ctx.histogram('dumps_exact', 'trailing bytes')
+            seq = [h for h in history if h is not None] + [mv]
+            note_direct(['dumps returned %d bytes but the encoding of the value ends after %d: %d stale/trailing bytes '
+                         'follow it (the encoding is an accepted proper prefix of the output)' % (len(out), r[2], len(out) - r[2])],
+                        {'kind': 'sequence', 'values': [mv_json(x) for x in seq]})
+            return False
+        ctx.histogram('dumps_exact', 'exact')
+        return True
 
     def add_value(mv, origin, cuts=True, big=False, full_bigmap=False):
         """a value of the data model: encode (I), decode of its encoding (I), spec read-back (R), wf, cut points."""
+        if cases.stopped:
+            return None
+        cases.check_budget()
         ctx.histogram('value_kind', kind_of(mv))
         ctx.histogram('origin', origin)
         try:
@@ -903,6 +991,12 @@ def run(ctx):
                         {'kind': 'roundtrip', 'value': mv_json(mv)})
             return None
         info = {'kind': 'roundtrip', 'value': mv_json(mv)}
+        if out is not None:
+            # exact length first: every later step (cuts, literals) is sized by len(out)
+            if not exact(mv, out, [hist['longest']]):
+                return None
+            if len(out) > hist['longest_len']:
+                hist['longest'], hist['longest_len'] = mv, len(out)
         note_direct(direct_value(real, mv, rng, 8 if big else 80), info)
         nontrivial = mv[0] not in ('nil', 'bool')
         if out is None:
@@ -935,8 +1029,50 @@ def run(ctx):
             add_cuts(out, 80 if len(out) <= 80 else 24)
         return out
 
+    def add_sequence(seq, origin):
+        """dumps() called on each value in turn, in this process: every output must be exactly the encoding
+        (I: equal to the model's bytes; direct: unpack consumes all of it and returns the value)."""
+        done = []
+        for mv in seq:
+            if cases.stopped:
+                return
+            try:
+                out = real.dumps(mv)
+            except NoPython:
+                continue
+            except Exception as e:                             # noqa
+                note_direct(['dumps raised %s on a value of the data model' % type(e).__name__],
+                            {'kind': 'sequence', 'values': [mv_json(x) for x in done + [mv]]})
+                done.append(mv)
+                continue
+            done.append(mv)
+            ctx.histogram('origin', origin)
+            ctx.histogram('sequence_position', min(len(done), 6))
+            info = {'kind': 'sequence', 'values': [mv_json(x) for x in done]}
+            ctx.count(('seq', repr(done)[:3000], len(done)), len(done) > 1)
+            if out is None:
+                cases.add('CEnc %s None' % value_term(mv), info)
+                continue
+            ctx.histogram('sequence_shape', 'first' if len(done) == 1 else
+                          ('shorter_than_earlier' if any(l > len(out) for l in seq_lens) else 'longest_so_far'))
+            seq_lens.append(len(out))
+            if not exact(mv, out, done[:-1]):
+                # still give Coq the (bounded) bytes: the model disagrees too
+                if len(out) <= 4096:
+                    cases.add('CEnc %s %s' % (value_term(mv), opt_bytes_term(out)), info)
+                continue
+            r = real.unpack(out)
+            if r[:2] != ('ok', mv):
+                note_direct(['loads(dumps(v)) != v inside a sequence of dumps calls'], info)
+            cases.add('CEnc %s %s' % (value_term(mv), opt_bytes_term(out)), info)
+        del seq_lens[:]
+
+    seq_lens = []
+
     def add_decode(b, origin, expect=None):
         """a byte stream: unpack (I)."""
+        if cases.stopped:
+            return ('err', -1, 'stopped')
         r = real.unpack(b)
         r2 = real.loads(b)
         if r[:2] != r2[:2]:
@@ -949,11 +1085,16 @@ def run(ctx):
 
     def add_cuts(b, limit):
         for p in cut_points(len(b), rng, limit):
+            if cases.stopped:
+                return
             r = add_decode(b[:p], 'cut')
             ctx.histogram('cut_result', 'insufficient' if r[:2] == ('err', 0) else 'other')
 
     def add_twin(mv, origin):
         """a spec-valid stream of mv in arbitrary legal formats."""
+        if cases.stopped:
+            return
+        cases.check_budget()
         try:
             b = twin_encode(mv, rng, lambda k: ctx.histogram('twin_format', k))
         except NoPython:
@@ -988,7 +1129,15 @@ def run(ctx):
                 add_decode(bytes.fromhex(item['bytes']), 'corpus')
             if 'value' in item:
                 add_value(json_mv(item['value']), 'corpus')
+            if 'sequence' in item:
+                add_sequence([json_mv(x) for x in item['sequence']], 'corpus')
     cov['corpus_cases'] = ncorpus
+
+    # ---- sequences of dumps() calls in one process: longer then shorter, mixed ------------------
+    # (the encoder must not keep state between calls: each output is compared byte for byte with the
+    # model's encoding and must end where the encoding ends)
+    for seq in dumps_sequences(rng, um, not ctx.thorough()):
+        add_sequence(seq, 'sequence')
 
     # ---- boundary integers ----------------------------------------------------------------------
     for z in boundary_ints():
@@ -1188,7 +1337,7 @@ def run(ctx):
     ctx.log('%d small + %d large cases' % (len(cases.small), len(cases.big)))
     terms = [t for t, _ in cases.small]
     infos = [i for _, i in cases.small]
-    bad = ctx.run_cases(IMPORTS, PRELUDE, 'check_case', terms, case_type='case', shard=ctx.pick(1000, 1500), timeout=800)
+    bad = ctx.run_cases(IMPORTS, PRELUDE, 'check_case', terms, case_type='case', shard=ctx.pick(1000, 1500), timeout=ctx.pick(300, 700))
     bad_infos = [(terms[i], infos[i]) for i in bad]
     # large cases: a few per shard
     if cases.big:
@@ -1196,7 +1345,7 @@ def run(ctx):
         chunks = [cases.big[i:i + per] for i in range(0, len(cases.big), per)]
         jobs = [(IMPORTS, PRELUDE + '\nDefinition cases__ : list case := [%s].\n' % ';\n'.join(t for t, _ in ch),
                  ['bad_idx check_case cases__']) for ch in chunks]
-        for ch, res in zip(chunks, ctx.coq_eval_many(jobs, timeout=7200 if os.environ.get('C14_BIGMAP_DECODE') else 800)):
+        for ch, res in zip(chunks, ctx.coq_eval_many(jobs, timeout=7200 if os.environ.get('C14_BIGMAP_DECODE') else ctx.pick(300, 700))):
             for i in res[0]:
                 bad_infos.append(ch[i])
     cov['correspondence_cases'] = len(cases.small) + len(cases.big)
@@ -1218,6 +1367,10 @@ def run(ctx):
                           % (len(bad_infos), t[:200]),
                           {'kind': 'correspondence', 'theorem': 'C14_* / correspondence', 'case': t[:2000], 'info': info,
                            'disagreements': len(bad_infos)}, found_input=False)
+    if cases.overrun and not ctx.violations:
+        ctx.violation('the check did not stay within its bounds: %s; no failing input was isolated' % cases.overrun,
+                      {'kind': 'overrun', 'what': cases.overrun, 'cases': len(cases.small) + len(cases.big)},
+                      found_input=False)
     if not proof_ok:
         ctx.violation('proof obligations of Props/C14.v not discharged: %s' % (ctx.notes,),
                       {'kind': 'proof', 'theorem': 'Props/C14.v', 'notes': ctx.notes,
@@ -1232,6 +1385,8 @@ def sizeclass(n):
 
 
 def add_decode_big(ctx, real, cases, b):
+    if cases.stopped:
+        return
     r = real.unpack(b)
     ctx.histogram('decode_origin', 'cut_big')
     ctx.histogram('decode_result', 'ok' if r[0] == 'ok' else r[2])
@@ -1243,6 +1398,8 @@ def add_decode_big(ctx, real, cases, b):
 
 
 def add_twin_big(ctx, real, cases, mv, rng, um, note_direct, isbig):
+    if cases.stopped:
+        return
     if isbig and mv[0] == 'arr':
         # only the header varies (the members keep their canonical form)
         n = len(mv[1])
@@ -1301,6 +1458,29 @@ def replay(ctx, obj):
         mv = json_mv(r['value'])
         fails = direct_value(real, mv, rng, 100000)
         print('value', str(r['value'])[:300])
+        print('failures', fails)
+        return 1 if fails else 0
+    if kind == 'sequence':
+        fails = []
+        vals = [json_mv(x) for x in r['values']]
+        for i, mv in enumerate(vals):
+            try:
+                out = real.dumps(mv)
+            except NoPython:
+                continue
+            except Exception as e:                             # noqa
+                fails.append('call %d: dumps raised %s' % (i + 1, type(e).__name__))
+                continue
+            if out is None:
+                continue
+            ru = real.unpack(out)
+            if ru[0] != 'ok':
+                fails.append('call %d: output not readable (%s)' % (i + 1, ru[2]))
+            elif ru[1] != mv:
+                fails.append('call %d: read back as a different value' % (i + 1))
+            elif ru[2] != len(out):
+                fails.append('call %d: dumps returned %d bytes, the encoding ends after %d' % (i + 1, len(out), ru[2]))
+        print('sequence of %d dumps calls' % len(vals), [str(x)[:80] for x in r['values']][-2:])
         print('failures', fails)
         return 1 if fails else 0
     if kind == 'stream':
